@@ -109,6 +109,13 @@ pub fn sub(seed: u64) -> Program {
             }
         }
     }
+    // a second whole-run direct subscriber registered after the others: whatever happens to
+    // earlier registrations must not affect it
+    if g.rng.chance(60) {
+        subs.push(direct(false));
+        main.push(Op::AddSub { store: 0, sub: subs.len() - 1, reg: regs });
+        regs += 1;
+    }
     // place late ops; an Unsub must come after its AddSub when both are in the same thread;
     // across threads the race is the point (an Unsub that finds no handle is skipped)
     for (t, op) in late_ops {
